@@ -119,4 +119,45 @@ Proof.
   - intros l Hl. rewrite Forall_forall in H1. split; [apply zr_sumsq, H1, Hl | apply H1, Hl].
   - intros t Ht. destruct (In_nth _ _ 0 Ht) as (k & _ & <-). apply H2.
 Qed.
+(* ---- constant targets: every Y loading of every component is the zero vector and every Y score is 0 ---- *)
+Lemma yscore_zr Y q : Zr Y -> forall i, nth i (yscore Rops Y q) 0 = 0.
+Proof.
+  intros H i. unfold yscore. destruct (lt_dec i (nsamp Y)) as [Hl|Hl].
+  - rewrite nth_map_seq by exact Hl. apply fsumn_R_zero. intros o _. rewrite H. cbn. ring.
+  - apply nth_overflow. rewrite map_length, seq_length. lia.
+Qed.
+Lemma ydeflate_zr Y Tc B q : Zr Y -> Zr q -> Zr (ydeflate Rops Y Tc B q).
+Proof. intros HY Hq. apply tab_zr. intros idx _. cbv zeta. rewrite HY, Hq. cbn. ring. Qed.
+
+Lemma inner_step_zr_Y X Y ls u b : Zr Y ->
+  Zr (i_q (inner_step Rops sqrt init X Y ls u b)) /\ (forall i, nth i (i_u (inner_step Rops sqrt init X Y ls u b)) 0 = 0).
+Proof.
+  intros HY. unfold inner_step. cbv zeta. cbn [i_q i_u]. split; [apply normalize_zr, xty_zr, HY | apply yscore_zr, HY].
+Qed.
+
+Lemma fit_loop_zr_Y n_iter lstsq k : forall X Y T, Zr Y ->
+  Forall (fun c : comp => Zr (c_yload c) /\ (forall i, nth i (c_yscore c) 0 = 0))
+         (fit_loop Rops (inner_cp Rops sqrt init tol n_iter) lstsq k X Y T).
+Proof.
+  induction k as [|k IH]; intros X Y T HY; cbn [fit_loop]; [constructor|]. cbv zeta.
+  assert (HQ : Zr (snd (inner_cp Rops sqrt init tol n_iter X Y))).
+  { unfold inner_cp. cbv zeta. cbn [snd].
+    apply (inner_state_inv Rops sqrt init tol (fun st => Zr (i_q st))). intros ls u b. apply inner_step_zr_Y, HY. }
+  constructor.
+  - cbn [c_yload c_yscore]. split; [exact HQ | apply yscore_zr, HY].
+  - apply IH. apply ydeflate_zr; [exact HY | exact HQ].
+Qed.
+
+Theorem plsr_constant_Y_degenerate n_iter ncomp X Y n sy r c :
+  shape Y = n :: sy -> (0 < n)%nat -> constant_samples Rops Y ->
+  cp_plsr_fit Rops sqrt init ne_solve tol n_iter ncomp X Y = Ok r -> In c (comps r) ->
+  (sumsq Rops (c_yload c) = 0 /\ forall J, tgetR (c_yload c) J = 0) /\ (forall t, In t (c_yscore c) -> t = 0).
+Proof.
+  intros Hs Hn Hc H Hin. rewrite (cp_plsr_fit_ok Rops sqrt init ne_solve tol _ _ _ _ _ H) in Hin.
+  unfold fit_cp, fit in Hin. cbv zeta in Hin. cbn [comps] in Hin.
+  pose proof (fit_loop_zr_Y n_iter (lstsq_ne Rops ne_solve) ncomp (center Rops X (mean0 Rops X)) _ [] (center_const_zr Y n sy Hs Hn Hc)) as HF.
+  rewrite Forall_forall in HF. destruct (HF c Hin) as [H1 H2]. split.
+  - split; [apply zr_sumsq, H1 | apply H1].
+  - intros t Ht. destruct (In_nth _ _ 0 Ht) as (k & _ & <-). apply H2.
+Qed.
 End Degenerate.
